@@ -214,6 +214,12 @@ Proof.
   intros [Hi Hr]. rewrite (IH _ Hr). rewrite size_ones. lia.
 Qed.
 
+Lemma weaken_raise {T} (m : res T) (P : T -> Prop) (Q Q' : Prop) :
+  (Q -> Q') ->
+  match m with Ok r => P r | Raise e => e = ValueError /\ Q end ->
+  match m with Ok r => P r | Raise e => e = ValueError /\ Q' end.
+Proof. intros H. destruct m; tauto. Qed.
+
 (* ------------------------------------------------------------------ reduce_den for GCXS *)
 Section GMain.
   Variable V : Type.
@@ -324,4 +330,273 @@ Section GMain.
       + intros oix Hoix. apply Hden. assumption.
       + cbn. split; [assumption|]. split; [assumption|]. rewrite Hsh. assumption.
   Qed.
+
+  (* the flattened array has the same cells *)
+  Lemma flatten_cells (sh : shape) : shape_ok sh ->
+    Permutation (map (fun ix' => unravel sh (ravel [size sh] ix')) (all_indices [size sh])) (all_indices sh).
+  Proof.
+    intros Hok. set (N := size sh). pose proof (size_nonneg _ Hok) as HN. fold N in HN.
+    assert (HokN : shape_ok [N]) by (repeat constructor; assumption).
+    assert (Hrav : forall ix', in_range [N] ix' -> 0 <= ravel [N] ix' < N).
+    { intros ix' H. pose proof (ravel_bounds _ _ H) as Hb. cbn [size fold_right] in Hb. lia. }
+    apply NoDup_Permutation.
+    - apply NoDup_map_inj; [|apply all_indices_NoDup].
+      intros a b Ha Hb E. apply all_indices_In in Ha, Hb.
+      apply (ravel_inj [N]); auto.
+      rewrite <- (ravel_unravel sh (ravel [N] a)) by auto.
+      rewrite <- (ravel_unravel sh (ravel [N] b)) by auto. rewrite E. reflexivity.
+    - apply all_indices_NoDup.
+    - intros y. rewrite in_map_iff, all_indices_In. split.
+      + intros [ix' [<- Hin]]. apply all_indices_In in Hin. apply unravel_in_range; auto.
+      + intros Hy. exists [ravel sh y]. pose proof (ravel_bounds _ _ Hy) as Hb. fold N in Hb. split.
+        * cbn [ravel size fold_right]. replace (ravel sh y * 1 + 0) with (ravel sh y) by lia.
+          apply unravel_ravel. assumption.
+        * apply all_indices_In. cbn. split; [lia|exact I].
+  Qed.
+
+  Lemma np_cells_all sh : np_cells sh [] [] = all_indices sh.
+  Proof.
+    unfold np_cells. cbn [sel map idx_eqb]. induction (all_indices sh) as [|a l IH]; [reflexivity|].
+    cbn. rewrite IH. reflexivity.
+  Qed.
+
+  (* the flatten().tocoo() path: reduce the 1-d array over its only axis *)
+  Lemma full_spec (x : coo V) l (kd : bool) :
+    COOP.canonical V x -> shape_ok (c_shape x) -> c_shape x <> [] ->
+    is_perm (zlen (c_shape x)) l ->
+    admissible V veqb op cast sup (c_fill x) = true ->
+    forall ax, np_norm_axes (zlen (c_shape x)) ax = Ok l ->
+    let sh := c_shape x in
+    match (x1 <- coo_reshape V [size sh] x ;;
+           r <- reduce_coo V veqb op cast sup ident AxNone kd x1 ;;
+           if kd then
+             match r with
+             | RArr c => c' <- coo_reshape V (map (fun _ => 1) sh) c ;; Ok (RArr c')
+             | RScalar v => Raise OtherError
+             end
+           else Ok r) with
+    | Ok r => exists osh g, np_reduce ax kd sh (den x) = Ok (osh, g) /\
+        rres_shape r = osh /\ (forall oix, in_range osh oix -> g oix = Ok (rres_den r oix)) /\ rres_wf V veqb r
+    | Raise e => e = ValueError /\ np_reduce ax kd sh (den x) = Raise ValueError
+    end.
+  Proof.
+    intros Hcan Hok Hne Hperm Hadm ax Hnp. cbn zeta.
+    set (sh := c_shape x) in *. set (n := zlen sh) in *. set (N := size sh).
+    assert (Hn : n = Z.of_nat (length sh)) by reflexivity.
+    pose proof (size_nonneg _ Hok) as HN. fold N in HN.
+    assert (HokN : shape_ok [N]) by (repeat constructor; assumption).
+    destruct (reshape_spec V veqb x [N] Hcan Hok HokN) as [x1 [Hx1 [Hsh1 [Hf1 [Hc1 [Hd1 _]]]]]].
+    { cbn [size fold_right]. fold sh N. lia. }
+    fold sh in Hx1, Hd1. rewrite Hx1. cbn [bind].
+    (* the Spec of the original reduction *)
+    assert (Hkept : kept_axes n l = []) by (apply is_perm_kept_nil; assumption).
+    assert (Hszl : size (sel 0 l sh) = N).
+    { rewrite (sel_perm_size sh l (zrange n)).
+      - unfold n. rewrite sel_id. reflexivity.
+      - apply NoDup_Permutation; [apply Hperm|apply NoDup_zrange|]. intros a. rewrite zrange_In. apply Hperm. }
+    set (A := np_fold (map (den x) (all_indices sh))).
+    assert (Hspec : np_reduce ax kd sh (den x) =
+              if (N =? 0) && match ident with None => true | Some _ => false end then Raise ValueError
+              else Ok (if kd then map (fun _ => 1) sh else [],
+                       fun oix => np_fold (map (den x) (np_cells sh [] (if kd then [] else oix))))).
+    { unfold NpReduce.np_reduce. rewrite <- Hn, Hnp. cbn [bind].
+      change (np_kept n l) with (kept_axes n l). rewrite Hkept, Hszl.
+      change (np_keep_shape sh l) with (keep_shape sh l). rewrite (keep_shape_all_ones sh l Hperm).
+      destruct (_ && _); [reflexivity|]. destruct kd; reflexivity. }
+    (* the Spec of the 1-d reduction *)
+    assert (Hspec1 : np_reduce AxNone kd [N] (den x1) =
+              if (N * 1 =? 0) && match ident with None => true | Some _ => false end then Raise ValueError
+              else Ok (if kd then [1] else [],
+                       fun oix => np_fold (map (den x1) (np_cells [N] [] (if kd then [] else oix))))).
+    { unfold NpReduce.np_reduce. cbn [bind]. destruct kd; reflexivity. }
+    replace (N * 1) with N in Hspec1 by lia.
+    assert (HA : np_fold (map (den x1) (all_indices [N])) = A).
+    { unfold A. rewrite (map_ext_in (den x1) (fun ix' => den x (unravel sh (ravel [N] ix')))).
+      - rewrite <- (map_map (fun ix' => unravel sh (ravel [N] ix')) (den x)).
+        apply np_fold_perm. apply Permutation_map. apply flatten_cells. assumption.
+      - intros ix' Hin. apply all_indices_In in Hin. apply Hd1. assumption. }
+    pose proof (reduce_den_proof V veqb veqb_eq op op_assoc op_comm cast cast_op sup ident sup_one sup_succ
+                  x1 AxNone kd Hc1) as Hred.
+    rewrite Hsh1 in Hred. specialize (Hred HokN). rewrite Hf1 in Hred.
+    destruct (reduce_coo V veqb op cast sup ident AxNone kd x1) as [r|e].
+    2:{ cbn [bind]. destruct Hred as [-> [Hr|Hr]]; [|congruence]. split; [reflexivity|].
+        rewrite Hspec1 in Hr. rewrite Hspec. destruct (_ && _); [reflexivity|discriminate]. }
+    cbn [bind]. destruct Hred as [osh1 [g1 [Hs1 [Hrs [Hrd Hwf]]]]].
+    rewrite Hspec1 in Hs1. rewrite Hspec.
+    destruct ((N =? 0) && match ident with None => true | Some _ => false end); [discriminate|].
+    inversion Hs1 as [[Ho Hg]]. clear Hs1.
+    destruct kd.
+    - (* keepdims: the (1,) result reshaped to (1, ..., 1) *)
+      destruct r as [c|v]; [|cbn in Hrs; congruence]. cbn in Hrs, Hwf. destruct Hwf as [Hcc [Hpc _]].
+      destruct (reshape_spec V veqb c (map (fun _ => 1) sh) Hcc) as [c' [Hc' [Hsh' [Hf' [Hcan' [Hd' Hp']]]]]].
+      + rewrite Hrs, <- Ho. repeat constructor. lia.
+      + apply Forall_forall. intros y Hy. apply in_map_iff in Hy. destruct Hy as [? [<- _]]. lia.
+      + rewrite Hrs, <- Ho, size_ones. reflexivity.
+      + rewrite Hc'. cbn [bind]. eexists. eexists. split; [reflexivity|]. split; [exact Hsh'|]. split.
+        * intros oix Hoix. cbn [rres_den]. rewrite (Hd' _ Hoix). rewrite Hrs, <- Ho.
+          rewrite (ravel_ones sh oix Hoix). change (unravel [1] 0) with [0].
+          specialize (Hrd [0]). rewrite <- Ho in Hrd. cbn [rres_den] in Hrd. rewrite <- Hrd by (cbn; lia).
+          rewrite <- Hg. rewrite !np_cells_all. symmetry. exact HA.
+        * cbn. split; [assumption|]. split; [apply Hp'; assumption|]. rewrite Hsh'.
+          destruct sh; [congruence|discriminate].
+    - eexists. eexists. split; [reflexivity|]. split; [rewrite Hrs, <- Ho; reflexivity|]. split; [|assumption].
+      intros oix Hoix. destruct oix; [|inversion Hoix].
+      specialize (Hrd []). rewrite <- Ho in Hrd. rewrite <- Hrd by exact I.
+      rewrite <- Hg. rewrite !np_cells_all. symmetry. exact HA.
+  Qed.
+
+  (* reduce_den for GCXS on the domain gcxs_axes_ok *)
+  Theorem gcxs_reduce_den_proof (g : gcxs V) ax (kd : bool) :
+    gcxs_ok V g -> shape_ok (g_shape g) -> g_shape g <> [] ->
+    (forall nax, norm_axes (zlen (g_shape g)) ax = Ok nax -> gcxs_axes_ok nax = true) ->
+    match gcxs_reduce V veqb op cast sup ident ax kd g with
+    | Ok r =>
+      exists osh gg, np_reduce ax kd (g_shape g) (gden g) = Ok (osh, gg) /\
+        rres_shape r = osh /\ (forall oix, in_range osh oix -> gg oix = Ok (rres_den r oix)) /\
+        rres_wf V veqb r
+    | Raise e =>
+      e = ValueError /\
+      (np_reduce ax kd (g_shape g) (gden g) = Raise ValueError
+       \/ admissible V veqb op cast sup (g_fill g) = false)
+    end.
+  Proof.
+    intros Hg Hok Hne Hdom.
+    destruct (gcxs_to_coo_spec V g Hg) as [Hcan [Hsh [Hfill Hden]]].
+    set (x := gcxs_to_coo V g) in *.
+    (* it suffices to prove the statement for the dense meaning of x *)
+    assert (Hgoal : match gcxs_reduce V veqb op cast sup ident ax kd g with
+            | Ok r => exists osh gg, np_reduce ax kd (g_shape g) (den x) = Ok (osh, gg) /\
+                rres_shape r = osh /\ (forall oix, in_range osh oix -> gg oix = Ok (rres_den r oix)) /\
+                rres_wf V veqb r
+            | Raise e => e = ValueError /\
+                (np_reduce ax kd (g_shape g) (den x) = Raise ValueError
+                 \/ admissible V veqb op cast sup (g_fill g) = false)
+            end).
+    2:{ pose proof (np_reduce_ext (g_shape g) (den x) (gden g) ax kd Hden) as Hext.
+        destruct (gcxs_reduce V veqb op cast sup ident ax kd g) as [r|e].
+        - destruct Hgoal as [osh [gg [Hs [H1 [H2 H3]]]]]. rewrite Hs in Hext.
+          destruct (np_reduce ax kd (g_shape g) (gden g)) as [[osh' gg']|]; [|contradiction].
+          destruct Hext as [-> Hgg]. exists osh', gg'. split; [reflexivity|]. split; [assumption|].
+          split; [|assumption]. intros oix Hoix. rewrite <- Hgg. apply H2. assumption.
+        - destruct Hgoal as [-> [Hs|Hs]]; split; auto. left. rewrite Hs in Hext.
+          destruct (np_reduce ax kd (g_shape g) (gden g)) as [[? ?]|]; [contradiction|congruence]. }
+    unfold gcxs_reduce, gcxs_reduce_with, head_generic.
+    set (sh := g_shape g) in *. set (n := zlen sh) in *. set (f := g_fill g) in *.
+    assert (Hn : n = Z.of_nat (length sh)) by reflexivity.
+    rewrite <- Hsh in Hok.
+    destruct (norm_axes n ax) as [nax|e] eqn:En.
+    2:{ cbn [bind]. destruct (norm_axes_raise _ _ _ En) as [-> Hnp]. split; [reflexivity|]. left.
+        unfold NpReduce.np_reduce. rewrite <- Hn, Hnp. reflexivity. }
+    cbn [bind]. specialize (Hdom nax eq_refl). unfold gcxs_axes_ok in Hdom.
+    apply andb_true_iff in Hdom. destruct Hdom as [Hd1 Hd2].
+    destruct (admissible V veqb op cast sup f) eqn:Hadm; cbn [negb bind].
+    2:{ split; [reflexivity|right; reflexivity]. }
+    rewrite <- Hfill in Hadm.
+    pose proof (norm_axes_spec _ _ _ En) as Hs.
+    destruct nax as [l|].
+    - (* a tuple *)
+      destruct Hs as [Hax [Hnp _]]. cbn in Hd2. apply nodupb_NoDup in Hd2. specialize (Hnp Hd2).
+      destruct l as [|a0 l0]; [discriminate|]. set (l := a0 :: l0) in *.
+      destruct (zlist_eqb (zsort l) (zrange n)) eqn:Efull.
+      + apply zlist_eqb_eq in Efull. apply zsort_full_iff in Efull. apply perm_zrange_is_perm in Efull.
+        rewrite <- Hsh in *.
+        eapply weaken_raise; [intros H; left; exact H|].
+        apply (full_spec x l kd Hcan Hok); try assumption.
+      + assert (Hk : kept_axes n l <> []).
+        { intros Hk. apply (kept_nil_perm n l Hd2 Hax) in Hk. apply zsort_full_iff in Hk.
+          apply zlist_eqb_eq in Hk. congruence. }
+        destruct (kept_axes n l) as [|c0 cs] eqn:Ek; [congruence|].
+        rewrite <- Ek. rewrite <- Hsh in *.
+        eapply weaken_raise; [intros H; left; exact H|].
+        apply (recompress_spec x l kd Hcan Hok Hd2); try assumption.
+        change (kept_axes n l <> []). rewrite Ek. discriminate.
+    - (* axis=None *)
+      subst ax.
+      assert (Hperm : is_perm n (zrange n)).
+      { split; [apply NoDup_zrange|]. intros a. apply zrange_In. }
+      rewrite <- Hsh in *.
+      eapply weaken_raise; [intros H; left; exact H|].
+      apply (full_spec x (zrange (zlen (c_shape x))) kd Hcan Hok); try assumption. reflexivity.
+  Qed.
 End GMain.
+
+Lemma idx_nodupb_NoDup l : idx_nodupb l = true -> NoDup l.
+Proof.
+  induction l as [|a r IH]; simpl; intros H; [constructor|].
+  apply andb_true_iff in H. destruct H as [H1 H2]. constructor; [|auto].
+  intros Hin. apply negb_true_iff in H1. assert (existsb (idx_eqb a) r = true); [|congruence].
+  apply existsb_exists. exists a. split; [assumption|apply idx_eqb_refl].
+Qed.
+
+Lemma gcxs_okb_spec {V} (g : gcxs V) : gcxs_okb g = true -> gcxs_ok V g.
+Proof.
+  unfold gcxs_okb, gcxs_ok. rewrite !andb_true_iff. intros [[H1 H2] H3]. split; [|split].
+  - apply Forall_forall. intros ix Hin. rewrite forallb_forall in H1. apply in_rangeb_spec. auto.
+  - apply idx_nodupb_NoDup. assumption.
+  - apply Nat.eqb_eq. assumption.
+Qed.
+
+(* ------------------------------------------------------------------ Z instance *)
+Theorem gcxs_reduce_z_eq m : valid_code m -> forall ax kd g,
+  gcxs_reduce_z m ax kd g =
+  gcxs_reduce Z Z.eqb (op_z m) (ufunc_cast m) (sup_z m) (ufunc_ident m) ax kd g.
+Proof.
+  intros Hm ax kd g. unfold gcxs_reduce_z, gcxs_reduce, gcxs_reduce_with.
+  rewrite (head_z_eq m Hm).
+  destruct (head_generic Z Z.eqb (op_z m) (ufunc_cast m) (sup_z m) (zlen (g_shape g)) (g_fill g) ax) as [nax|e];
+    cbn [bind]; [|reflexivity].
+  destruct nax as [[|a0 l0]|]; try reflexivity.
+  - destruct (zlist_eqb (zsort (a0 :: l0)) (zrange (zlen (g_shape g)))).
+    + destruct (coo_reshape Z [size (g_shape g)] (gcxs_to_coo Z g)) as [x1|e]; cbn [bind]; [|reflexivity].
+      change (reduce_coo_with Z Z.eqb (op_z m) (ufunc_cast m) (head_z m) (fix_z m) (rfill_z m) AxNone kd x1)
+        with (reduce_coo_z m AxNone kd x1).
+      rewrite (reduce_coo_z_eq m Hm). reflexivity.
+    + destruct (kept_axes (zlen (g_shape g)) (a0 :: l0)) as [|c0 cs]; [reflexivity|].
+      destruct (coo_reduce_calc Z (op_z m) (ufunc_cast m) _ (gcxs_to_coo Z g)) as [k|e]; cbn [bind]; [|reflexivity].
+      apply (tail_z_eq m Hm).
+  - cbn [bind].
+    destruct (coo_reshape Z [size (g_shape g)] (gcxs_to_coo Z g)) as [x1|e]; cbn [bind]; [|reflexivity].
+    change (reduce_coo_with Z Z.eqb (op_z m) (ufunc_cast m) (head_z m) (fix_z m) (rfill_z m) AxNone kd x1)
+      with (reduce_coo_z m AxNone kd x1).
+    rewrite (reduce_coo_z_eq m Hm). reflexivity.
+Qed.
+
+Theorem gcxs_reduce_den_z_proof m : valid_code m -> forall (g : gcxs Z) ax (kd : bool),
+  gcxs_ok Z g -> shape_ok (g_shape g) -> g_shape g <> [] ->
+  (forall nax, norm_axes (zlen (g_shape g)) ax = Ok nax -> gcxs_axes_ok nax = true) ->
+  match gcxs_reduce_z m ax kd g with
+  | Ok r =>
+    exists osh gg,
+      np_reduce Z (op_z m) (ufunc_cast m) (ufunc_ident m) ax kd (g_shape g) (gden g) = Ok (osh, gg) /\
+      rres_shape r = osh /\ (forall oix, in_range osh oix -> gg oix = Ok (rres_den r oix)) /\
+      rres_wf Z Z.eqb r
+  | Raise e =>
+    e = ValueError /\
+    (np_reduce Z (op_z m) (ufunc_cast m) (ufunc_ident m) ax kd (g_shape g) (gden g) = Raise ValueError
+     \/ adm_z m (g_fill g) = false)
+  end.
+Proof.
+  intros Hm g ax kd Hg Hok Hne Hdom. rewrite (gcxs_reduce_z_eq m Hm).
+  apply (gcxs_reduce_den_proof Z Z.eqb Z.eqb_eq (op_z m) (op_z_assoc m Hm) (op_z_comm m Hm) (ufunc_cast m)
+           (cast_z_op m Hm) (sup_z m) (ufunc_ident m)); try assumption.
+  - intros s f. apply sup_z_one.
+  - intros s f k. apply sup_z_succ.
+Qed.
+
+(* non-vacuity: a GCXS array (CSR of [[1,0],[0,2]], fill 0) reduced over the axes (1, 0) *)
+Definition ex_g2 : gcxs Z := mkGCXS [2; 3] [0] [1; 2; 5] [0; 1; 2] [0; 1; 3] 0.
+Example ex_gcxs_proof :
+  gcxs_ok Z ex_g2 /\ shape_ok (g_shape ex_g2) /\
+  gcxs_reduce_z 0 (AxTuple [1; 0]) true ex_g2 = Ok (RArr (mkCOO [1; 1] [[0; 0]] [8] 0)) /\
+  gcxs_reduce_z 3 (AxInt (-1)) false ex_g2 = Ok (RArr (mkCOO [2] [[0]; [1]] [1; 5] 0)).
+Proof.
+  split; [|split; [|split]].
+  - assert (E : gcxs_coords ex_g2 = [[0; 0]; [1; 1]; [1; 2]]) by (vm_compute; reflexivity).
+    unfold gcxs_ok. rewrite E. split; [|split].
+    + repeat constructor; cbn; lia.
+    + repeat constructor; cbn; intuition discriminate.
+    + reflexivity.
+  - repeat constructor; cbn; lia.
+  - vm_compute. reflexivity.
+  - vm_compute. reflexivity.
+Qed.
